@@ -196,10 +196,10 @@ fn focus_runs(prop: &str, quick: bool) -> u64 {
         ("C03", true) => 40_000,
         ("C06", true) => 12_000,
         ("C11", true) => 60_000,
-        ("C02", false) => 4_000_000,
-        ("C03", false) => 4_000_000,
-        ("C06", false) => 1_000_000,
-        ("C11", false) => 6_000_000,
+        ("C02", false) => 2_000_000,
+        ("C03", false) => 1_500_000,
+        ("C06", false) => 400_000,
+        ("C11", false) => 4_000_000,
         _ => 10_000,
     }
 }
@@ -529,6 +529,16 @@ pub fn run_check(prop: &str, opts: &Opts) -> i32 {
     );
     if !missing.is_empty() {
         eprintln!("HARNESS-ERROR: reach probes stuck at zero: {:?}", missing);
+        return simcore::EXIT_HARNESS;
+    }
+    // the liveness budget of the samplers (20 000 healthy draws) was derived from a mean of about 120 draws
+    // per sample; if the measured mean drifts far above that, the bound's false-alarm probability is no longer
+    // what DESIGN.md states, and nothing this check says about liveness may be believed
+    if acc.sampler_calls > 100 && (acc.sampler_draws as f64 / acc.sampler_calls as f64) > 400.0 && exit == simcore::EXIT_OK {
+        eprintln!(
+            "HARNESS-ERROR: sampler needs {:.0} healthy draws per sample on average; the 20000-draw liveness budget is stale",
+            acc.sampler_draws as f64 / acc.sampler_calls as f64
+        );
         return simcore::EXIT_HARNESS;
     }
     exit
